@@ -22,6 +22,14 @@ func vname(i int) string { return "v" + string(rune('a'+i%26)) + string(rune('0'
 func (e *histEngine) step(r *rng, k int) MalType {
 	prev := func() MalType { return sy(vname(r.intn(k))) }
 	if k == 0 || r.chance(1, 6) {
+		if r.chance(1, 4) {
+			// EMPTY collections held in a binding: every way of getting one
+			return []MalType{
+				HashMap{Val: map[string]MalType{}}, call1("hash-map"), call1("hash-set"), Set{Val: map[string]struct{}{}},
+				call1("dissoc", HashMap{Val: map[string]MalType{kw("a"): 1}}, kw("a")), Vector{}, call1("list"), call1("vector"),
+				call1("quote", HashMap{Val: map[string]MalType{}}), call1("rest", vc(1)),
+			}[r.intn(10)]
+		}
 		switch r.intn(8) {
 		case 0:
 			if r.chance(1, 2) {
@@ -83,6 +91,9 @@ func (e *histEngine) step(r *rng, k int) MalType {
 	case 14:
 		return call1("assoc", prev(), kw(r.pick([]string{"a", "c"})), lit())
 	case 15:
+		if r.chance(1, 2) {
+			return call1("conj", prev(), kw(r.pick([]string{"a", "s"}))) // sets take keyword members
+		}
 		return call1("dissoc", prev(), kw("a"))
 	case 16:
 		return call1("merge", prev(), HashMap{Val: map[string]MalType{kw("z"): lit()}})
